@@ -325,19 +325,92 @@ def tr_composite_flags(mod):
     return out
 
 
-def frontend():
+def frontend_class(mod, cls, params):
+    c = find_class(mod, cls)
+    return {
+        "params": params,
+        "mat": tr_body(find_func(c, "as_matrix"), Ctx(cls, params)),
+        "inverse": tr_inverse(cls, find_func(c, "inverse"), params),
+        "flag": tr_flag(cls, find_func(c, "is_hermitian")),
+        "wires": tr_wires(cls, find_func(c, "num_wires"), params),
+    }
+
+
+REFUSED = {}
+
+
+def frontend(strict=False):
+    """IR of every leaf class. A class whose source left the accepted language gets the reference IR of the pinned commit
+    (see translate.with_reference); `validate` then checks it against the live class like any translated IR."""
+    from translate import load_ref
     mod = parse_src("operator/gates.py")
     ir = {}
+    REFUSED.clear()
+    ref = None
     for cls, params in LEAVES.items():
-        c = find_class(mod, cls)
-        ir[cls] = {
-            "params": params,
-            "mat": tr_body(find_func(c, "as_matrix"), Ctx(cls, params)),
-            "inverse": tr_inverse(cls, find_func(c, "inverse"), params),
-            "flag": tr_flag(cls, find_func(c, "is_hermitian")),
-            "wires": tr_wires(cls, find_func(c, "num_wires"), params),
-        }
+        try:
+            ir[cls] = frontend_class(mod, cls, [list(p) for p in params])
+        except TranslationError as e:
+            if strict:
+                raise
+            ref = ref if ref is not None else (load_ref("gates") or {})
+            if cls not in ref.get("leaves", {}):
+                raise
+            ir[cls] = ref["leaves"][cls]
+            REFUSED[cls] = str(e)[:200]
     return ir
+
+
+def composite_flags(strict=False):
+    from translate import load_ref
+    try:
+        return tr_composite_flags(parse_src("operator/gates.py"))
+    except TranslationError as e:
+        ref = None if strict else load_ref("gates")
+        if not ref or "composite_flags" not in ref:
+            raise
+        REFUSED["<composite is_hermitian>"] = str(e)[:200]
+        return ref["composite_flags"]
+
+
+def validate_composite(cf):
+    """the delegation rules of the composite `is_hermitian` answers, against live objects"""
+    import numpy as np
+    from common import import_qib
+    import_qib()
+    import qib.operator.gates as G
+    import qib
+    errs = []
+    X, Z, S, Rx = G.PauliXGate(), G.PauliZGate(), G.SGate(), G.RxGate(0.3)
+    herm = np.array([[1., 2.], [2., -1.]]) / np.sqrt(5.)
+    nonherm = np.array([[1., 0.], [0., 1j]])
+
+    def expect(cls, live, model):
+        if bool(live) != bool(model):
+            errs.append(f"{cls}.is_hermitian: rule read from the source gives {model}, live object answers {live}")
+    try:
+        k = cf["ControlledGate"]
+        for t in (X, S, Rx, Z):
+            expect("ControlledGate", G.ControlledGate(t, 1).is_hermitian(), t.is_hermitian() if k[0] == "target" else k[1])
+        k = cf["MultiplexedGate"]
+        for ts in ([X, Z], [X, S], [S, X], [Rx, Rx]):
+            expect("MultiplexedGate", G.MultiplexedGate(ts, 1).is_hermitian(), all(t.is_hermitian() for t in ts) if k[0] == "all-targets" else k[1])
+        k = cf["GeneralGate"]
+        for m in (herm, nonherm):
+            expect("GeneralGate", G.GeneralGate(m, 1).is_hermitian(), bool(np.allclose(m, m.conj().T)) if k[0] == "matrix-test" else k[1])
+        latt = qib.lattice.IntegerLattice((2,), pbc=False)
+        field = qib.field.Field(qib.field.ParticleType.QUBIT, latt)
+        H = qib.operator.IsingHamiltonian(field, 0.3, 0.2, 0.1)
+        k = cf["TimeEvolutionGate"]
+        expect("TimeEvolutionGate", G.TimeEvolutionGate(H, 0.5).is_hermitian(), k[1])
+        k = cf["PrepareGate"]
+        expect("PrepareGate", G.PrepareGate(np.array([0.5, 0.5]), 1).is_hermitian(), k[1])
+        k = cf["BlockEncodingGate"]
+        for mname, val in k[1].items():
+            expect("BlockEncodingGate", G.BlockEncodingGate(H, getattr(G.BlockEncodingMethod, mname)).is_hermitian(), val)
+    except Exception as e:
+        errs.append(f"live module raised while the composite is_hermitian rules were validated: {type(e).__name__}: {e}")
+    return errs
 
 
 # ---------------------------------------------------------------------------------------------
@@ -638,19 +711,31 @@ COMPOSITE_FLAGS = {}
 FLAGS_TEXT = []
 
 
+def reference_ir():
+    return {"leaves": frontend(strict=True), "composite_flags": tr_composite_flags(parse_src("operator/gates.py"))}
+
+
 def run():
+    import translate
     COMPOSITE_FLAGS.clear()
-    COMPOSITE_FLAGS.update(tr_composite_flags(parse_src("operator/gates.py")))
+    COMPOSITE_FLAGS.update(composite_flags())
     if COMPOSITE_FLAGS["BlockEncodingGate"][0] != "method":
         raise TranslationError("BlockEncodingGate.is_hermitian must switch on the method")
     for c in ("ControlledGate", "MultiplexedGate", "GeneralGate"):
         if COMPOSITE_FLAGS[c][0] == "matrix-test" and c != "GeneralGate":
             raise TranslationError(f"{c}.is_hermitian: matrix test not supported")
     ir = frontend()
-    errs = validate(ir)
+    errs = validate(ir) + validate_composite(COMPOSITE_FLAGS)
+    if REFUSED:
+        translate.MODES["gates"] = {"mode": "reference IR of the pinned commit for: " + ", ".join(sorted(REFUSED)) + " (validated against the live module); the other classes translated from the current source text",
+                                    "front_end_refused": dict(REFUSED)}
+    else:
+        translate.MODES["gates"] = {"mode": "translated from the current source text"}
     if errs:
-        raise TranslationError("front-end validation failed: " + "; ".join(errs[:5]))
+        pre = "front-end validation failed: " if not REFUSED else \
+            f"source left the translator's language ({dict(REFUSED)}) and the reference forms do not describe the live module: "
+        raise TranslationError(pre + "; ".join(errs[:5]))
     txt = print_lean(ir)
     write_if_changed(LEAN / "QibGen" / "GateFlags.lean", FLAGS_TEXT[0])
     write_if_changed(LEAN / "QibGen" / "GatesReal.lean", txt)
-    return {k: {"inverse": v["inverse"][0:2], "flag": v["flag"], "wires": v["wires"]} for k, v in ir.items()}
+    return {k: {"inverse": list(v["inverse"][0:2]), "flag": v["flag"], "wires": list(v["wires"])} for k, v in ir.items()}
